@@ -10,6 +10,7 @@
 -/
 import Distill.Props.RenderProps
 import Distill.Proofs.Convert
+import Distill.Proofs.Compose
 import Distill.Props.FiltersProps
 namespace Distill.C02
 open Distill
@@ -44,6 +45,18 @@ theorem handed_text_is_source_text (cfg : CCfg) (A : CAtoms) (anc : List String)
     (textEvIds (convert cfg A anc hp n)).Sublist n.textIds :=
   convert_sublist cfg A anc hp n
 
+/-- **C02 (selection and rendering composed).** Whatever Text elements the classifier keeps,
+the text nodes their renderings hold (each rendering holds `textIds.filter (· ∈ window)`:
+`RenderProps.text_render_excerpt`), concatenated in element order as `Document.GenerateOutput`
+does (`RenderProps.doc_output_spec`), are a sublist of the source's text nodes — only source
+text, every node at most once, in source order.  The hypothesis says that node ids are distinct
+(they are pre-order positions). -/
+theorem rendered_excerpt (cfg : CCfg) (A : CAtoms) (anc : List String) (hp : Bool) (n : Node)
+    (keep : TextEl → Bool) (hn : n.brTextIds.Nodup) :
+    ((((textsOf (buildDoc (convert cfg A anc hp n))).filter keep).map
+        (fun t => n.textIds.filter (fun i => t.win.contains i))).flatten).Sublist n.textIds :=
+  rendered_concat_excerpt cfg A anc hp n keep hn (textIds_sublist_brTextIds n)
+
 /-! non-vacuity: a page with a paragraph, a hidden div and a list; windows [1,2,4] and [9] -/
 def A0 : CAtoms :=
   { styleDisplay := fun i => if i = 5 then "none" else "", visHidden := fun _ => false, byline := fun _ => false,
@@ -56,5 +69,6 @@ def page : Node :=
     .elem 7 "ul" [] [.elem 8 "li" [] [.text 9 "c"]] ]
 example : (textsOf (buildDoc (convert { skipUnlikely := true } A0 [] false page))).map (·.win) = [[2, 4], [9]] := by
   decide +kernel
+example : page.brTextIds.Nodup ∧ page.brTextIds = [2, 4, 6, 9] := by decide +kernel
 
 end Distill.C02
